@@ -75,6 +75,17 @@ int _vnacal_new_solve_simple(vnacal_new_solve_state_t *vnssp,
 	int iteration = 0;
 
 	/*
+	 * Fail if there aren't enough equations; in particular, don't
+	 * size the arrays below with zero equations.
+	 */
+	if (equations < unknowns) {
+	    _vnacal_error(vcp, VNAERR_MATH, "vnacal_new_solve: "
+		    "insufficient number of standards to solve "
+		    "error terms");
+	    goto out;
+	}
+
+	/*
 	 * For each iteration on the V matrices (if in use)...
 	 */
 	for (;;) {
@@ -124,12 +135,6 @@ int _vnacal_new_solve_simple(vnacal_new_solve_state_t *vnssp,
 	     * Solve for the unknowns using LU decomposition if a_matrix
 	     * is square, or QR decomposition if the system is overdetermined.
 	     */
-	    if (equations < unknowns) {
-		_vnacal_error(vcp, VNAERR_MATH, "vnacal_new_solve: "
-			"insufficient number of standards to solve "
-			"error terms");
-		return -1;
-	    }
 	    if (equations == unknowns) {
 		double complex determinant;
 
